@@ -16,8 +16,10 @@ import (
 	"time"
 
 	"google.golang.org/grpc"
+	"google.golang.org/grpc/credentials/insecure"
 	"google.golang.org/grpc/metadata"
 
+	"github.com/openconfig/gnmi/connection"
 	"github.com/openconfig/gnmi/manager"
 	gpb "github.com/openconfig/gnmi/proto/gnmi"
 	tpb "github.com/openconfig/gnmi/proto/target"
@@ -27,12 +29,18 @@ import (
 )
 
 type session struct {
-	refuse bool
+	// pending: the dial never answers by itself (an address that swallows the
+	// SYN, a blocking dial): it ends only when its context does
+	pending bool
+	refuse  bool
 	msgs   string // u update, s sync, n nil-response
 	end    string // err, eof, silence
 }
 
 func (s session) String() string {
+	if s.pending {
+		return "dial-pending"
+	}
 	if s.refuse {
 		return "refuse"
 	}
@@ -51,6 +59,10 @@ type cfgData struct {
 	recvTimeout bool
 	rounds      int
 	long        bool // one continuous outage; virtual durations are respected and the retry delays are judged
+	// realConn: the manager dials through the repository's own connection.Manager
+	// (package connection instrumented too) over a scripted dial function,
+	// instead of the harness's stand-in for it
+	realConn bool
 }
 
 type harness struct{}
@@ -113,6 +125,22 @@ func configsBase(tier string) []xplore.Config {
 			}
 		}
 	}
+	// a dial that never answers (it ends only with its context), through the
+	// harness's stand-in and through the repository's own connection.Manager:
+	// Remove and Reconnect must still get through, a second target is unaffected
+	pend := session{pending: true}
+	for _, real := range []bool{false, true} {
+		for _, sc := range [][]session{{pend}, {pend, {msgs: "u", end: "err"}}, {{msgs: "u", end: "err"}, pend}, {{refuse: true}, pend}} {
+			for _, c := range [][]ctl{nil, {{"remove", 0}}, {{"remove", 1}}, {{"reconnect", 0}}, {{"reconnect", 1}}, {{"remove", 1}, {"add", 2}}} {
+				out = append(out, xplore.Config{Name: fmt.Sprintf("t1=%s ctl=%v recvTimeout=on realConnectionManager=%v", scriptName(sc), c, real), Bound: bound,
+					Data: cfgData{scripts: map[string][]session{"t1": sc}, targets: []string{"t1"}, ctls: c, recvTimeout: true, rounds: 5, realConn: real}})
+			}
+		}
+		for _, c := range [][]ctl{nil, {{"remove", 1}}} {
+			out = append(out, xplore.Config{Name: fmt.Sprintf("t1=dial-pending t2=[]silence ctl=%v realConnectionManager=%v", c, real), Bound: bound,
+				Data: cfgData{scripts: map[string][]session{"t1": {pend}, "t2": {{msgs: "", end: "silence"}}}, targets: []string{"t1", "t2"}, ctls: c, recvTimeout: true, rounds: 4, realConn: real}})
+		}
+	}
 	// one long continuous outage (every attempt fails at once, in either way):
 	// the delays between attempts are judged. Sequential, long: default schedule
 	// plus one deviation.
@@ -146,6 +174,8 @@ type env struct {
 	nstream map[string]int
 	vio     []xplore.Violation
 	dialAt  []time.Duration // virtual time of every connection attempt (long-outage configurations)
+	dialing map[string]int  // dials in flight per target
+	made    []*grpc.ClientConn
 }
 
 func (e *env) add(t, kind string, stream int, arg string) {
@@ -160,6 +190,8 @@ func (c connMgr) Connection(ctx context.Context, addr, dialer string) (*grpc.Cli
 	c.e.dialAt = append(c.e.dialAt, time.Duration(vrt.NowNanos()))
 	// the dial is in flight: a Reconnect or Remove may land here; a dial
 	// honours its context (gnmi_collector dials blocking, with a time-out)
+	c.e.dialing[t]++
+	defer func() { c.e.dialing[t]-- }()
 	vrt.Yield()
 	if err := ctx.Err(); err != nil {
 		c.e.add(t, "dialaborted", -1, "")
@@ -167,12 +199,52 @@ func (c connMgr) Connection(ctx context.Context, addr, dialer string) (*grpc.Cli
 	}
 	idx := c.e.nstream[t]
 	sess := c.e.sessionAt(t, idx)
+	if sess.pending {
+		vrt.Recv(ctx.Done())
+		c.e.nstream[t]++
+		c.e.add(t, "dialaborted", idx, "")
+		return nil, func() {}, ctx.Err()
+	}
 	if sess.refuse {
 		c.e.nstream[t]++
 		c.e.add(t, "refused", idx, "")
 		return nil, func() {}, errors.New("dial refused")
 	}
 	return nil, func() {}, nil
+}
+
+// dial is the scripted dial function handed to the repository's own
+// connection.Manager (realConn configurations): same script, same scheduling
+// points as the stand-in above; a successful dial returns a lazily created,
+// never connected *grpc.ClientConn (a closeable token).
+func (e *env) dial(ctx context.Context, t string, _ ...grpc.DialOption) (*grpc.ClientConn, error) {
+	e.dialAt = append(e.dialAt, time.Duration(vrt.NowNanos()))
+	e.dialing[t]++
+	defer func() { e.dialing[t]-- }()
+	vrt.Yield()
+	if err := ctx.Err(); err != nil {
+		e.add(t, "dialaborted", -1, "")
+		return nil, err
+	}
+	idx := e.nstream[t]
+	sess := e.sessionAt(t, idx)
+	if sess.pending {
+		vrt.Recv(ctx.Done())
+		e.nstream[t]++
+		e.add(t, "dialaborted", idx, "")
+		return nil, ctx.Err()
+	}
+	if sess.refuse {
+		e.nstream[t]++
+		e.add(t, "refused", idx, "")
+		return nil, errors.New("dial refused")
+	}
+	cc, err := grpc.NewClient("passthrough:///"+t, grpc.WithTransportCredentials(insecure.NewCredentials()))
+	if err != nil {
+		panic(err)
+	}
+	e.made = append(e.made, cc)
+	return cc, nil
 }
 
 func (e *env) sessionAt(t string, i int) session {
@@ -240,7 +312,12 @@ func (harness) Run(cfg xplore.Config, ch vrt.Chooser, trace bool) (xplore.Outcom
 	}
 	defer func() { manager.RetryRandomization = rnd }()
 	res := vrt.Run(ch, vrt.Options{Reverse: cfg.Reverse, Trace: trace, EarlyTimers: !d.long}, func() {
-		e := &env{d: d, nstream: map[string]int{}}
+		e := &env{d: d, nstream: map[string]int{}, dialing: map[string]int{}}
+		defer func() {
+			for _, cc := range e.made {
+				cc.Close()
+			}
+		}()
 		manager.VerifSetSubscribeClient(func(ctx context.Context, conn *grpc.ClientConn) (gpb.GNMI_SubscribeClient, error) {
 			// which target? the outgoing metadata carries nothing useful; the
 			// harness tracks the target through the context value set below
@@ -259,6 +336,13 @@ func (harness) Run(cfg xplore.Config, ch vrt.Chooser, trace bool) (xplore.Outcom
 			ConnectError:      func(t string, err error) { e.add(t, "connecterror", -1, "") },
 			MonitorError:      func(t string, err error) { e.add(t, "monitorerror", -1, "") },
 			ConnectionManager: ctxConnMgr{connMgr{e}},
+		}
+		if d.realConn {
+			cm, err := connection.NewManagerCustom(map[string]connection.Dial{connection.DEFAULT: e.dial})
+			if err != nil {
+				panic(err)
+			}
+			c.ConnectionManager = cm
 		}
 		if d.recvTimeout {
 			c.ReceiveTimeout = time.Hour
@@ -297,7 +381,7 @@ func (harness) Run(cfg xplore.Config, ch vrt.Chooser, trace bool) (xplore.Outcom
 					if managed[t] && d.recvTimeout && e.inSession(t) && !hasRace(d.ctls) {
 						viol("silent-session-never-ends", "round %d: target %s has a receive time-out configured and its stream is silent (manager parked in Recv), but no timer is armed: this silence will never end the session; parked: %v; trace: %s", round, t, vrt.ParkedInfo(), e.render(t))
 					}
-					if managed[t] && !e.inSession(t) && !hasRace(d.ctls) {
+					if managed[t] && !e.inSession(t) && e.dialing[t] == 0 && !hasRace(d.ctls) {
 						viol("retry-stopped", "round %d: target %s is managed, not in a session, and no timer is armed: retry has silently stopped; parked: %v; trace: %s", round, t, vrt.ParkedInfo(), e.render(t))
 					}
 				}
